@@ -13,7 +13,7 @@ from pymbolic.mapper import Mapper
 import pymbolic.primitives as pmbl
 from pymbolic.parser import (
     _openpar, _closepar, _minus, FinalizedTuple, _PREC_LOGICAL_AND,
-    _PREC_TIMES, _PREC_PLUS, _PREC_CALL, _times, _plus
+    _PREC_TIMES, _PREC_PLUS, _PREC_CALL, _PREC_UNARY, _times, _plus
 )
 try:
     from fparser.two.Fortran2003 import Intrinsic_Name
@@ -330,7 +330,9 @@ class ExpressionParser(ParserBase):
         did_something = False
         if pstate.is_next(self._f_derived_type) and _PREC_CALL > min_precedence:
             pstate.advance()
-            right_exp = self.parse_expression(pstate, _PREC_PLUS)
+            # a component reference binds tighter than any operator: the right-hand side is
+            # the component (with its subscripts and further components) only
+            right_exp = self.parse_expression(pstate, _PREC_UNARY)
             left_exp = pmbl.Lookup(left_exp, right_exp)
             did_something = True
         elif pstate.is_next(_times) and _PREC_TIMES > min_precedence:
